@@ -1438,6 +1438,22 @@ def marginal_family():
                 fail("Marginal over independent choices: weight != exact marginal of the returned choices", selection=name, w=w, want=want)
             if any(a in c for a in "xyz" if a not in kept) or not all(a in c for a in kept):
                 fail("Marginal: returned choices are not exactly the selected ones", selection=name)
+            # estimate_logpdf of the same sample: for independent choices the importance weight of a partial sample is its exact
+            # marginal density whatever the unselected choices are drawn to be
+            lp = indep.marginal(selection=sel).estimate_logpdf(jrand.fold_in(key, 9), c)
+            if not close(lp, want):
+                fail("Marginal.estimate_logpdf(sample) != exact marginal density of the sample (independent choices)", selection=name,
+                     got=lp, want=want)
+        # a selection that keeps only PART of a nested callee: the weight is the density of exactly the selected choices
+        @gen
+        def outer_m():
+            s = inner(0.3) @ "sub"
+            return normal(s, 1.0) @ "y"
+        for name, sel, want_fn in (("S['sub','x']", S.at["sub", "x"], lambda c_: N(0.3, 1.0).log_prob(c_["sub", "x"])),):
+            w, c = outer_m.marginal(selection=sel).random_weighted(key)
+            if not close(w, want_fn(c)):
+                fail("Marginal with a selection that keeps part of a callee: weight != exact marginal of the selected choice", selection=name,
+                     w=w, want=want_fn(c))
 
     @gen
     def disc():
